@@ -937,35 +937,31 @@ func mkSampler(st Step) zerolog.Sampler {
 	panic("lp: unknown sampler " + st.Sampler)
 }
 
-// Derive builds the logger chain. It returns the final logger and the
-// writer that receives its events.
-func (rt *Rt) Derive(root zerolog.Logger, w *RecWriter, steps []Step) (zerolog.Logger, *RecWriter) {
-	l := root
-	for _, st := range steps {
-		switch st.Kind {
-		case "with":
-			l = ApplyContext(l.With(), st.Ops).Logger()
-		case "update":
-			ops := st.Ops
-			l.UpdateContext(func(c zerolog.Context) zerolog.Context { return ApplyContext(c, ops) })
-		case "hook":
-			hs := make([]zerolog.Hook, len(st.Hooks))
-			for i, h := range st.Hooks {
-				hs[i] = rt.MkHook(h)
-			}
-			l = l.Hook(hs...)
-		case "level":
-			l = l.Level(zerolog.Level(st.Level))
-		case "sample":
-			l = l.Sample(mkSampler(st))
-		case "output":
-			w = &RecWriter{}
-			l = l.Output(w)
-		default:
-			panic("lp: unknown step " + st.Kind)
+// applyStep derives a logger from parent (for "update": mutates *parent in place and
+// returns it).
+func (rt *Rt) applyStep(parent *zerolog.Logger, st Step) (zerolog.Logger, *RecWriter) {
+	switch st.Kind {
+	case "with":
+		return ApplyContext(parent.With(), st.Ops).Logger(), nil
+	case "update":
+		ops := st.Ops
+		parent.UpdateContext(func(c zerolog.Context) zerolog.Context { return ApplyContext(c, ops) })
+		return *parent, nil
+	case "hook":
+		hs := make([]zerolog.Hook, len(st.Hooks))
+		for i, h := range st.Hooks {
+			hs[i] = rt.MkHook(h)
 		}
+		return parent.Hook(hs...), nil
+	case "level":
+		return parent.Level(zerolog.Level(st.Level)), nil
+	case "sample":
+		return parent.Sample(mkSampler(st)), nil
+	case "output":
+		w := &RecWriter{}
+		return parent.Output(w), w
 	}
-	return l, w
+	panic("lp: unknown step " + st.Kind)
 }
 
 // Start opens the event for spec on l.
@@ -1012,8 +1008,7 @@ func Finish(e *zerolog.Event, ev EventSpec) {
 
 // Result of running a program.
 type Result struct {
-	Writes []Write // writes received by the final logger's destination
-	Other  []Write // writes received by earlier destinations (before an Output step)
+	Dests  [][]Write // writes per destination: 0 = root writer, then one per output step in step order
 	Rt     *Rt
 	Panic  interface{}
 }
@@ -1024,21 +1019,51 @@ func Run(p *Program) (res Result) {
 	defer restore()
 	rt := &Rt{}
 	res.Rt = rt
-	w0 := &RecWriter{}
+	writers := []*RecWriter{{}}
 	defer func() {
 		if r := recover(); r != nil {
 			res.Panic = r
 		}
+		for _, w := range writers {
+			res.Dests = append(res.Dests, w.Writes)
+		}
 	}()
-	l, w := rt.Derive(zerolog.New(w0), w0, p.Steps)
-	for _, ev := range p.Events {
-		e := Start(&l, ev)
-		e = ApplyEvent(e, ev.Ops)
-		Finish(e, ev)
+	root := zerolog.New(writers[0])
+	nodes := make([]*zerolog.Logger, len(p.Steps))
+	get := func(i int) *zerolog.Logger {
+		if i < 0 {
+			return &root
+		}
+		return nodes[i]
 	}
-	res.Writes = w.Writes
-	if w != w0 {
-		res.Other = w0.Writes
+	open := map[int]*zerolog.Event{}
+	for _, a := range p.Acts() {
+		switch a.K {
+		case "step":
+			st := p.Steps[a.I]
+			par := get(p.ParentOf(a.I))
+			l, w := rt.applyStep(par, st)
+			if st.Kind == "update" {
+				nodes[a.I] = par // same logger variable
+			} else {
+				nodes[a.I] = &l
+			}
+			if w != nil {
+				writers = append(writers, w)
+			}
+		case "event", "open":
+			ev := p.Events[a.I]
+			e := Start(get(p.NodeOf(a.I)), ev)
+			e = ApplyEvent(e, ev.Ops)
+			if a.K == "open" {
+				open[a.I] = e
+			} else {
+				Finish(e, ev)
+			}
+		case "fin":
+			Finish(open[a.I], p.Events[a.I])
+			delete(open, a.I)
+		}
 	}
 	return
 }
